@@ -820,6 +820,10 @@ def run(tier, procs=None, only=None):
     )
 
 
+# every real-library oracle of this property (each returns (reproduced, detail)); used to confirm structural facts that carry no replay of their own
+ALL_REPLAYS = [replay_ops, replay_readers, replay_purity, replay_provider_purity]
+
+
 def replay(data):
     key = data.get("key", "")
     fn = replay_provider_purity if "provider-purity" in key else replay_purity if "purity" in key else (replay_readers if "readers" in key else replay_ops)
